@@ -166,6 +166,9 @@ func writerFaultFired(t *Task) bool {
 	return false
 }
 
+// benignBody: delivery in pieces is ordinary transport behaviour, not a fault.
+func benignBody(mode string) bool { return mode == "short" || mode == "split" }
+
 func bodyFaultFired(t *Task) bool {
 	for _, f := range t.FaultFired {
 		if strings.HasPrefix(f, "body_") {
@@ -318,6 +321,10 @@ func oracleC01(r *Result) {
 				r.violate("C01.a success-without-done", "C01:callback:success:"+state,
 					"status Success only when the stored request exists and reports Done",
 					fmt.Sprintf("callback id=%q (state %s) answered Success: %s", t.Sent.CallbackID, state, replySummary(t)), t.ID)
+			} else if c := firstCall(t, "AuthRequestByID"); c != nil && len(c.Args) > 0 && len(t.Sent.CallbackIDs) > 0 && !contains(t.Sent.CallbackIDs, c.Args[0]) {
+				r.violate("C01.a success-for-another-request", "C01:callback:success:looked-up-id-differs-from-named-id",
+					"status Success only when the stored request named by the caller exists and reports Done",
+					fmt.Sprintf("caller named %q, the handler looked up %q: %s", t.Sent.CallbackIDs, c.Args[0], replySummary(t)), t.ID)
 			} else if len(sf) > 0 {
 				r.violate("C01.a success-despite-failure", "C01:callback:success-after-fault:"+faultOpKind(sf[0]),
 					"a user-info lookup or signing failure yields a non-Success reply",
@@ -338,6 +345,15 @@ func oracleC01(r *Result) {
 			w.probe("done_session_not_success")
 		}
 	}
+}
+
+func contains(xs []string, x string) bool {
+	for _, y := range xs {
+		if y == x {
+			return true
+		}
+	}
+	return false
 }
 
 // faultOpKind turns "Op:kind" into a stable class string.
